@@ -231,3 +231,12 @@ def run_case(ctx, i, rng):
         insitu_case(ctx, i, rng)
     else:
         direct_case(ctx, i, rng)
+
+
+def extra_stage(tier, seed, tmp):
+    """thorough tier: the repository's own test-suite as a workload under this property's monitors."""
+    if tier != "thorough":
+        return None
+    from ..runner import suite_under_monitors
+
+    return suite_under_monitors("C09", seed, tmp)
